@@ -28,7 +28,9 @@ def pos_cmd(start):
 
 
 def depth_for(pos, quick):
-    if quick and pos.get('src', '').startswith('promo'):
+    if quick and pos.get('src', '') == 'ep-trap':
+        return 1 if pos.get('men', 0) % 2 else 3      # the double push must be the last full-width ply: odd depths
+    if quick and (pos.get('src', '').startswith('promo') or pos.get('src', '') in ('movelist-double-push', 'corner-promo')):
         return 2
     if pos['men'] <= 6:
         return 4 if not quick else 3
